@@ -251,12 +251,17 @@ def accumulate(k, weights, which, full=False):
         orange = FitRange3D(time=slice(None, None), row=slice(0, 2), col=slice(1, 3))
         pairs_r, pairs_c = ((1, 0), (2, 1)), ((0, 1), (1, 2))
     calls = []
+    seed = vx.integer("pipeline_seed")
+    frames = []
 
-    def fake_run_pipeline(processor, readout, outputs, pipeline_seed, debug, with_inherited_coords):
+    def fake_run_pipeline(processor, readout, outputs, pipeline_seed=None, debug=False, with_inherited_coords=True):
         pid = processor.get(ID_KEY)
         a = processor.get(A_KEY)
-        calls.append((pid, a))
-        frame = sims[pid] + a  # the simulated frame depends on the run's own processor and on the applied parameter
+        calls.append((pid, a, pipeline_seed, readout))
+        # stochastic models: the frame also depends on the seed the run is given; an unseeded run draws from an unknown state
+        noise = pipeline_seed if pipeline_seed is not None else vx.real(f"os_entropy_{len(calls)}")
+        frame = sims[pid] + a + noise  # the simulated frame depends on the run's own processor and on the applied parameter
+        frames.append(frame)
         # like the real exposure result: one slice per readout (a single readout here)
         return fakexr.Tree({"pixel": fakexr.DataArray(frame.reshape((1,) + FR), dims=("time", "y", "x"))})
 
@@ -288,12 +293,19 @@ def accumulate(k, weights, which, full=False):
             input_arguments=[ParameterValues(key=ID_KEY, values=list(range(k)))] if k > 1 else None,
             weights=wvec if weights == "vector" else None,
             weights_from_file=[f"w{i}.npy" for i in range(k)] if weights == "file" else None,
+            pipeline_seed=seed,
         )
         try:
             res = prob.fitness(symnp.asarray([dv]))
             failed = None
         except ValueError as e:
             failed = e
+        n_fit = len(calls)
+        if failed is None:
+            # what calibration does with the champion: every processor re-simulated with the reported parameters
+            champion = prob.convert_to_parameters(symnp.asarray([dv]))
+            for proc_i in prob.param_processor_list:
+                prob._apply_parameters(processor=proc_i, parameter=champion)
     lab = f"k={k},weights={weights},{which},{'full' if full else 'shifted'}"
     if failed is not None:
         # weight vectors are expanded to the full detector frame by the implementation, which cannot be combined
@@ -304,7 +316,7 @@ def accumulate(k, weights, which, full=False):
     for i in range(k):
         for (r_t, r_o) in pairs_r:
             for (c_t, c_o) in pairs_c:
-                s = sims[i][r_o, c_o] + dv
+                s = sims[i][r_o, c_o] + dv + seed
                 t = targets[i, r_t, c_t]
                 if weights == "file":
                     wv = wfile[i, r_t, c_t]
@@ -315,8 +327,14 @@ def accumulate(k, weights, which, full=False):
                 d = (t - s)
                 total = total + (abs(d * wv) if which == "abs" else d * d * wv)
     vx.prove(f"C11/accumulate/sum_over_pairs/{lab}", vx.all_of([len(res) == 1, res[0] == total]))
-    vx.prove(f"C11/accumulate/own_processor/{lab}", [c[0] for c in calls] == list(range(k)))
-    vx.prove(f"C11/accumulate/parameter_applied/{lab}", vx.all_of([c[1] == dv for c in calls]))
+    vx.prove(f"C11/accumulate/own_processor/{lab}", [c[0] for c in calls[:n_fit]] == list(range(k)))
+    vx.prove(f"C11/accumulate/parameter_applied/{lab}", vx.all_of([c[1] == dv for c in calls[:n_fit]]))
+    # re-simulating the champion reproduces the simulated data its fitness was computed from
+    same = [len(calls) == 2 * n_fit]
+    for i in range(min(n_fit, len(calls) - n_fit)):
+        same += [calls[n_fit + i][0] == calls[i][0], calls[n_fit + i][3] is calls[i][3]]
+        same += [x == y for x, y in zip(frames[n_fit + i].elems(), frames[i].elems())]
+    vx.prove(f"C11/accumulate/champion_resimulation/{lab}", vx.all_of(same))
 
 
 # ------------------------------------------------------------------------------------------------
@@ -363,11 +381,11 @@ def replay(oid, kwargs, model, data):
             got, want = fm.reduced_chi_squared(s, t, w, 1), (((t - s) / w) ** 2).sum() / (n - 1)
         return (not close(float(got), float(want), 1e-9)), {"got": float(got), "want": float(want)}
     if fn == "accumulate":
-        return _replay_accumulate(kwargs, model)
+        return _replay_accumulate(kwargs, model, champion="champion_resimulation" in oid)
     return False, {"note": "no concrete oracle"}
 
 
-def _replay_accumulate(kwargs, model):
+def _replay_accumulate(kwargs, model, champion=False):
     """Everything real: target / weight files on disk, real xarray, real exposure of a probe pipeline."""
     import os
     import tempfile
@@ -405,8 +423,11 @@ def _replay_accumulate(kwargs, model):
             wfiles.append(os.path.join(tmp, f"w{i}.npy"))
             np.save(wfiles[-1], wf[i])
 
+        frames = []
+
         def hook(d, tag, kw, rec):
-            d.pixel.array = sims[int(kw["pid"])] + float(kw["a"])
+            d.pixel.array = sims[int(kw["pid"])] + float(kw["a"]) + (np.random.normal(size=FR) if champion else 0.0)
+            frames.append((int(kw["pid"]), d.pixel.array.copy()))
 
         vxprobes.reset(hook)
         pipe = DetectionPipeline(scene_generation=[ModelFunction(name="init", func="vxprobes.init_buckets")],
@@ -418,8 +439,15 @@ def _replay_accumulate(kwargs, model):
                 processor=proc, variables=[ParameterValues(key=A_KEY, values="_", boundaries=(-10.0, 10.0))], readout=Readout(), simulation_output="pixel",
                 generations=1, population_size=2, fitness_func=f, file_path=None, target_fit_range=trange, out_fit_range=orange, target_filenames=tfiles,
                 input_arguments=[ParameterValues(key=ID_KEY, values=list(range(k)))] if k > 1 else None,
-                weights=wv if weights == "vector" else None, weights_from_file=wfiles if weights == "file" else None)
+                weights=wv if weights == "vector" else None, weights_from_file=wfiles if weights == "file" else None,
+                pipeline_seed=int(model.get("pipeline_seed", 11)) % 2**31 if champion else None)
             got = float(prob.fitness(np.array([dv]))[0])
+            if champion:
+                n_fit = len(frames)
+                for proc_i in prob.param_processor_list:
+                    prob._apply_parameters(processor=proc_i, parameter=prob.convert_to_parameters(np.array([dv])))
+                same = len(frames) == 2 * n_fit and all(a[0] == b[0] and np.array_equal(a[1], b[1]) for a, b in zip(frames[:n_fit], frames[n_fit:]))
+                return (not same), {"champion_resimulation_reproduces_the_frames_its_fitness_was_computed_from": same, "runs": len(frames)}
         except ValueError as e:
             return not (weights == "vector" and not full), {"raised": repr(e)[:200]}
         finally:
